@@ -779,6 +779,208 @@ def run_wide(entry, el, case, gains):
 
 
 # ---------------------------------------------------------------------------------------------
+# repeatability and linearity across flips of precision / tensor shape / memory layout / direction on ONE element
+
+FLIP_DTYPES = ('complex128', 'complex64')
+FLIP_LAYOUTS = ('C', 'F', 'strided')
+# what a result may differ by from the result of the same call on a fresh element / from the linear combination:
+# the same arithmetic in the same precision (the element's caches may have been computed at the other precision
+# and cast, hence not 0)
+FLIP_TOL = {'complex128': 1e-10, 'complex64': 2e-5}
+
+
+def flip_array(rng, grid, kind, dtype, layout):
+    """Random dyadic complex values (few bits: exact in single precision too) of the shape of `kind`, in the given
+    precision and memory layout: C-contiguous, Fortran order (tensor axes fastest), or a strided view (every second
+    element of a larger array)."""
+    shape = registry.field_shape(grid, kind)
+    a = registry.dyadic_complex(rng, shape, bits=4)
+    return lay_out(a, dtype, layout)
+
+
+def lay_out(a, dtype, layout):
+    a = np.asarray(a).astype(dtype)
+    if layout == 'F':
+        return np.asfortranarray(a)
+    if layout == 'strided':
+        big = np.zeros(a.shape[:-1] + (2 * a.shape[-1],), dtype=dtype)
+        big[..., ::2] = a
+        return big[..., ::2]
+    return np.ascontiguousarray(a)
+
+
+def gen_flip_steps(rng, entry, nsteps, directed):
+    """A history of calls on one element: every step = (direction, kind, precision, layout, wavelength number)."""
+    dirs = ['forward'] + (['backward'] if entry.backward_kinds else [])
+    steps = []
+    wl0 = int(rng.integers(len(entry.wavelengths)))
+    d0 = 'forward'
+    k0 = entry.kinds[int(rng.integers(len(entry.kinds)))]
+    p0 = int(rng.integers(2))
+    for i in range(nsteps):
+        if directed:
+            # the same call signature with alternating precision, then a shape flip at the second precision
+            direction, wl = d0, wl0
+            kinds = entry.kinds
+            kind = k0 if i < 2 or len(kinds) == 1 else kinds[(kinds.index(k0) + i - 1) % len(kinds)]
+            dtype = FLIP_DTYPES[(p0 + i) % 2] if i < 3 else FLIP_DTYPES[int(rng.integers(2))]
+            layout = 'C' if i < 2 else FLIP_LAYOUTS[int(rng.integers(3))]
+        else:
+            direction = dirs[int(rng.integers(len(dirs)))]
+            kinds = entry.kinds if direction == 'forward' else entry.backward_kinds
+            kind = kinds[int(rng.integers(len(kinds)))]
+            dtype = FLIP_DTYPES[int(rng.integers(2))]
+            layout = FLIP_LAYOUTS[int(rng.integers(3))]
+            wl = wl0 if rng.random() < 0.75 else int(rng.integers(len(entry.wavelengths)))
+        steps.append([direction, kind, dtype, layout, wl])
+    return steps
+
+
+def run_flip(entry, case, count=None):
+    """One element instance is taken through the steps of the history.  At every step, for inputs E1, E2, a*E1+E2 of the
+    step's precision / shape / layout:  the result equals what a FRESH element (which has seen nothing else) returns for
+    E1 — values, precision, grid, wavelength —, the call repeated gives the same, f(a*E1+E2) = a f(E1) + f(E2), and the
+    inputs are left as they were (bytes, dtype, strides).  Returns (bad, worst) with worst = {precision: largest
+    normalised difference seen}."""
+    import hcipy
+    rng = case_rng(case)
+    bad = []
+    worst = {}
+    cname = entry.cls.__name__
+    el = entry.factory()
+    history = []
+
+    def fail(clause, step, what):
+        direction, kind, dtype, layout, wl = step
+        bad.append(('flip-%s %s %s' % (clause, cname, direction),
+                    'flip-%s: %s [%s; step %d = %s of the history %s on one element instance]' % (
+                        clause, what, entry.name, len(history), '/'.join(str(s) for s in step), ' -> '.join(history) or '(none)')))
+
+    for step in case['steps']:
+        direction, kind, dtype, layout, wli = step
+        wl = entry.wavelengths[wli]
+        grid = entry.input_grid if direction == 'forward' else entry.output_grid
+        conj = entry.conj_forward if direction == 'forward' else entry.conj_backward
+        A1 = flip_array(rng, grid, kind, dtype, layout)
+        A2 = flip_array(rng, grid, kind, dtype, layout)
+        a = complex(registry.dyadic_scalar(rng, -2, 2, 2), registry.dyadic_scalar(rng, -2, 2, 2)) or (1.5 - 0.5j)
+        A3 = lay_out(a * np.asarray(A1, dtype=complex) + np.asarray(A2, dtype=complex), dtype, layout)     # exact (few bits)
+        stokes = registry.STOKES[int(rng.integers(len(registry.STOKES)))]
+        tol = FLIP_TOL[dtype]
+
+        def wavefront(A):
+            return make_wf(hcipy.Field(A, grid), kind, wl, stokes)
+
+        def guarded(element, A):
+            wf = wavefront(A)
+            keep = (np.asarray(wf.electric_field).tobytes(), str(wf.electric_field.dtype), wf.electric_field.strides, A.tobytes(),
+                    repr(wf.wavelength), id(wf.electric_field.grid))
+            outs, _ = call(element, direction, wf)
+            now = (np.asarray(wf.electric_field).tobytes(), str(wf.electric_field.dtype), wf.electric_field.strides, A.tobytes(),
+                   repr(wf.wavelength), id(wf.electric_field.grid))
+            if now != keep:
+                fail('input-modified', step, 'the wavefront passed in (or the array it was built from) was changed by %s' % direction)
+            return out_arrays(outs), [(str(o.electric_field.dtype),) + m for o, m in zip(outs, out_meta(outs))]
+
+        # the reference: a fresh element, given the same VALUES in the same precision as a plain C-contiguous array
+        # (the result is a function of the values, not of how they lie in memory); whether it accepts them decides
+        # whether the input is supported at all
+        try:
+            ref, ref_meta = guarded(entry.factory(), np.ascontiguousarray(A1).copy())
+            supported = all(np.all(np.isfinite(x)) for x in ref)
+        except Exception:     # noqa
+            supported = False
+        if not supported:
+            if count is not None:
+                count('flip-step-unsupported-by-fresh-element:%s/%s' % (dtype, layout))
+            history.append('/'.join(str(s) for s in step) + '(unsupported)')
+            continue
+        try:
+            o1, m1 = guarded(el, A1)
+            o2, _ = guarded(el, A2)
+            o3, _ = guarded(el, A3)
+            o1b, m1b = guarded(el, A1)
+        except Exception as ex:     # noqa
+            fail('raises', step, '%s raised %s: %s (a fresh element accepts the same values as a C-contiguous array of the same precision)' % (
+                direction, type(ex).__name__, str(ex)[:120]))
+            return bad, worst
+        scale = max([1.0] + [maxabs(x) for x in ref])
+        ok, w = same(o1, ref, tol, scale)
+        if ok:
+            worst[dtype] = max(worst.get(dtype, 0.0), w / scale)
+        if not ok:
+            fail('fresh-element', step, 'the result differs from what a freshly constructed element returns for the same values '
+                 '(C-contiguous, same precision; max diff %.3g, scale %.3g, allowed %.1g relative)' % (w, scale, tol))
+        elif m1 != ref_meta:
+            fail('result-form', step, 'precision / shape / grid / wavelength / Stokes vector of the result (%s) differ from those '
+                 'a fresh element returns (%s)' % (m1[0][:2], ref_meta[0][:2]))
+        ok, w = same(o1b, o1, tol, scale)
+        if not ok or m1b != m1:
+            fail('repeat', step, 'the same call returned a different result the second time (max diff %.3g)' % w)
+        aa = np.conj(a) if conj else a
+        if len(o3) == len(o1) == len(o2) and all(x.shape == y.shape == z.shape for x, y, z in zip(o1, o2, o3)):
+            lscale = max([1.0] + [abs(a) * maxabs(x) + maxabs(y) for x, y in zip(o1, o2)])
+            ok, w = same(o3, [aa * x + y for x, y in zip(o1, o2)], 4 * tol, lscale)
+            if ok:
+                worst['lin-' + dtype] = max(worst.get('lin-' + dtype, 0.0), w / lscale)
+            else:
+                fail('linearity', step, '%s(a E1 + E2) differs from %s %s(E1) + %s(E2) by %.3g (scale %.3g)' % (
+                    direction, 'conj(a)' if conj else 'a', direction, direction, w, lscale))
+        else:
+            fail('linearity', step, 'output shapes differ between inputs')
+        history.append('/'.join(str(s) for s in step))
+        if bad:
+            return bad, worst          # later steps would run on an element already known to be off
+    return bad, worst
+
+
+def flip_cases(ctx, registries):
+    """Per registry entry: one directed history (same call, precision alternating, then shape / layout flips) and
+    random ones.  Same histories in the quick and in the thorough tier (more of them in the latter)."""
+    rng = np.random.default_rng([ctx.seed, 6, 8])
+    n_random = ctx.scale(2, 3)
+    cases = []
+    idx = 0
+    for k, entries in enumerate(registries):
+        for e in entries:
+            for j in range(1 + n_random):
+                idx += 1
+                steps = gen_flip_steps(rng, e, 4 if j == 0 else int(rng.integers(3, 6)), directed=(j == 0))
+                cases.append({'mode': 'flip', 'entry': e.name, 'registry': k, 'reg_seed': [ctx.seed, 6, 0, k],
+                              'data_seed': [ctx.seed, 6, 9, idx], 'steps': steps, 'directed': j == 0})
+    return cases
+
+
+def run_flips(ctx, registries, by_name):
+    worst_all = {}
+    ctx.extra['flip_worst_relative_difference'] = worst_all
+    for case in flip_cases(ctx, registries):
+        e = by_name[(case['registry'], case['entry'])]
+        bad, worst = run_flip(e, case, ctx.count)
+        for key, what in bad:
+            ctx.violation(key, what, case)
+        for k, v in worst.items():
+            worst_all[k] = max(worst_all.get(k, 0.0), v)
+        steps = case['steps']
+        ctx.count('flip-history-steps:%d' % len(steps))
+        ctx.count('flip-history:' + ('directed' if case['directed'] else 'random'))
+        for a, b in zip(steps, steps[1:]):
+            same_sig = a[0] == b[0] and a[4] == b[4]
+            if a[2] != b[2]:
+                ctx.count('flip:precision %s->%s%s' % (a[2][7:], b[2][7:], ' (same direction+wavelength)' if same_sig else ''))
+            if a[1] != b[1]:
+                ctx.count('flip:shape %s->%s' % (a[1], b[1]))
+            if a[3] != b[3]:
+                ctx.count('flip:layout %s->%s' % (a[3], b[3]))
+            if a[0] != b[0]:
+                ctx.count('flip:direction')
+        ctx.count('flip-family:' + e.family)
+        ctx.count('flip-failed' if bad else 'flip-ok')
+        flips = sum(1 for a, b in zip(steps, steps[1:]) if a[:4] != b[:4])
+        ctx.case(None, nontrivial_key=('flip', case['registry'], e.name, repr(steps)) if flips and worst else None)
+
+
+# ---------------------------------------------------------------------------------------------
 # model correspondence: effect programs
 
 def effect_program(entry, el, direction, kind):
@@ -976,6 +1178,39 @@ def ir_term(entry, el, direction, kind, wl):
         if fwd:
             return fam('fibreForward', a_mat(P.T * (el.input_grid.weights * np.ones(P.shape[0]))[None, :]))
         return fam('fibreBackward', a_mat(P))
+    if fam_ == 'fraunhofer' and cname == 'FraunhoferPropagator':
+        # fourier_transform.forward(E) * norm_factor / fourier_transform.backward(E) / norm_factor: the element's own
+        # Fourier-transform object as a matrix (columns = images of the unit vectors) and the scalar it computed
+        inst = el.get_instance_data(entry.input_grid, None, wl)
+        ft = inst.fourier_transform
+        c = complex(inst.norm_factor)
+        if fwd:
+            return fam('scaledTransform', a_vec([c]), a_mat(probe_field_map(ft.forward, ft.input_grid)))
+        return fam('scaledTransform', a_vec([1 / c]), a_mat(probe_field_map(ft.backward, ft.output_grid)))
+    if fam_ == 'filter' and cname in ('FresnelPropagator', 'AngularSpectrumPropagator'):
+        # FourierFilter: cut-out(ifft(tf * fft(zero-pad(E)))), conj(tf) for backward -- with the filter's own transfer
+        # function (as the call left it), internal grid and cut-out
+        ff = el.get_instance_data(entry.input_grid, None, wl).fourier_filter
+        ff._compute_functions(hcipy.Field(np.zeros(entry.input_grid.size, dtype=complex), entry.input_grid))
+        tf = np.asarray(ff._transfer_function, dtype=complex)
+        ishape = tuple(ff.internal_grid.shape)
+        if tf.shape != ishape:
+            return None                          # a matrix-valued transfer function: no scalar sandwich
+        n_in, n_int = entry.input_grid.size, int(np.prod(ishape))
+        cut = ff.cutout if ff.cutout is not None else tuple([slice(None)] * len(ishape))
+        Pf = np.zeros((n_int, n_in), dtype=complex)
+        for k in range(n_in):
+            pad = np.zeros(ishape, dtype=complex)
+            e = np.zeros(n_in, dtype=complex)
+            e[k] = 1.0
+            pad[cut] = e.reshape(entry.input_grid.shape)
+            Pf[:, k] = np.fft.fftn(pad).ravel()
+        Pb = np.zeros((n_in, n_int), dtype=complex)
+        for j in range(n_int):
+            u = np.zeros(n_int, dtype=complex)
+            u[j] = 1.0
+            Pb[:, j] = np.fft.ifftn(u.reshape(ishape))[cut].ravel()
+        return fam('sandwich', a_mat(Pb), a_vec(tf.ravel() if fwd else tf.ravel().conj()), a_mat(Pf))
     if fam_ == 'projection':
         return fam('projection', a_mat(el.transformation), a_vec(el.coeffs), a_mat(el.transformation_inverse))
     if fam_ == 'lyot' and cname == 'LyotCoronagraph':
@@ -1123,20 +1358,51 @@ def hist_subject(name):
             mb.linear_combination = counted
             return cnt
         return ('mirrorSurface', make, lambda el, k: setattr(el, 'actuators', pool[k % len(pool)].copy()), watch, grids[:1])
+    if name == 'MatrixFourierTransform':
+        # the helper every Fraunhofer propagation on a non-FFT focal grid goes through, wrapped as an element; its
+        # "parameter" is the precision of the fields it is handed (model: param 0 of Elements.iMft), value k -> dtype
+        fg = hp.make_focal_grid(2, 3)
+
+        class MftElement(object):
+            def __init__(self):
+                self.mft = hp.MatrixFourierTransform(g0, fg)
+                self.precision = 'complex128'
+
+            def forward(self, wf):
+                return hp.Wavefront(self.mft.forward(wf.electric_field), wf.wavelength)
+
+        def watch(el):
+            # cell 0: the matrices M1/M2 were recomputed (new array object); cell 1: the intermediate array was reallocated
+            cnt = [0, 0]
+            last = [None, None]
+            keep = []
+
+            def poll():
+                for i, cur in enumerate((getattr(el.mft, 'M1', None), getattr(el.mft, 'intermediate_array', None))):
+                    if cur is not None and cur is not last[i]:
+                        cnt[i] += 1
+                        last[i] = cur
+                        keep.append(cur)            # kept alive: identities stay meaningful
+                return tuple(cnt)
+            return poll
+        return ('mft', MftElement, lambda el, k: setattr(el, 'precision', FLIP_DTYPES[k % 2]), watch, grids[:1])
     raise MachineryError('unknown history subject %r' % name)
 
 
-HIST_SUBJECTS = ('ThinLens', 'Apodizer', 'PhaseApodizer', 'DeformableMirror')
+HIST_SUBJECTS = ('ThinLens', 'Apodizer', 'PhaseApodizer', 'DeformableMirror', 'MatrixFourierTransform')
+HIST_PARAM_POOL = {'DeformableMirror': 4, 'MatrixFourierTransform': 2}
 
 
 def gen_history(rng, name, idx):
     """A history: first a parameter change, then calls (grid number, wavelength number) and further parameter changes.
     Agnostic elements: at most 10 calls (their cache holds 11 instances; eviction is C05's subject) and parameter values
     never repeat (the setter clears the whole cache, the model keys the entries by the parameter instead).
-    The mirror: parameter values from a pool of 4, so setting the *same* actuators again occurs."""
-    agnostic = name != 'DeformableMirror'
+    The mirror: parameter values from a pool of 4, so setting the *same* actuators again occurs; the matrix Fourier
+    transform: the precision of the fields it is handed, a pool of 2 (complex128, complex64)."""
+    agnostic = name not in HIST_PARAM_POOL
+    pool = HIST_PARAM_POOL.get(name, 0)
     ngrids = 3 if agnostic else 1
-    events = [['s', 0, 1 if agnostic else int(rng.integers(4))]]
+    events = [['s', 0, 1 if agnostic else int(rng.integers(pool))]]
     nxt = 2
     ncalls = int(rng.integers(3, 11))
     last = None
@@ -1146,7 +1412,7 @@ def gen_history(rng, name, idx):
             if agnostic:
                 events.append(['s', 0, nxt]); nxt += 1
             else:
-                events.append(['s', 0, int(rng.integers(4))])
+                events.append(['s', 0, int(rng.integers(pool))])
         if last is not None and rng.random() < 0.35:
             g, w = last                                # the same call again: the classical hit
         else:
@@ -1165,6 +1431,9 @@ def run_history(case):
     family, make, set_param, watch, grids = hist_subject(case['subject'])
     el = make()
     cnt = watch(el)
+    if not callable(cnt):
+        lst = cnt
+        cnt = lambda: (lst[0],)      # noqa: E731
     rng = np.random.default_rng(list(case['data_seed']) + [77])
     bad = []
     observed = []
@@ -1178,13 +1447,15 @@ def run_history(case):
         gi = ev[1]
         grid = grids[gi] if gi >= 0 else registry.fresh_grid(grids[-1 - gi])
         wl = HIST_WAVELENGTHS[ev[2]]
-        E = hp.Field(registry.dyadic_complex(rng, (grid.size,)), grid)
+        E = hp.Field(registry.dyadic_complex(rng, (grid.size,)).astype(vars(el).get('precision', 'complex128')), grid)
         keep = np.array(E, copy=True)
-        before = cnt[0]
+        before = cnt()
         with warnings.catch_warnings():
             warnings.simplefilter('ignore')
             out = np.array(el.forward(hp.Wavefront(E, wl)).electric_field, copy=True)
-            observed.append(1 if cnt[0] > before else 0)
+            after = cnt()
+            bits = tuple(1 if x > y else 0 for x, y in zip(after, before))
+            observed.append(bits[0] if len(bits) == 1 else bits)
             # the clause itself (independent of the model): after this history the element answers like a freshly
             # constructed one with the current parameters, and the input is intact
             fresh = make()
@@ -1219,7 +1490,9 @@ def history_tie(ctx):
                   'events': [['s', 0, 1], ['c', 0, 0], ['c', 0, 0], ['c', 0, 1], ['c', 0, 0], ['s', 0, 2], ['c', 0, 0], ['c', -1, 0], ['c', 1, 0], ['c', 0, 0]]})
     cases.append({'mode': 'history', 'subject': 'DeformableMirror', 'data_seed': [1],
                   'events': [['s', 0, 0], ['c', 0, 0], ['c', 0, 1], ['s', 0, 1], ['c', 0, 0], ['s', 0, 0], ['c', 0, 0], ['s', 0, 0], ['c', 0, 2]]})
-    idx = 2
+    cases.append({'mode': 'history', 'subject': 'MatrixFourierTransform', 'data_seed': [2],
+                  'events': [['s', 0, 0], ['c', 0, 0], ['c', 0, 0], ['s', 0, 1], ['c', 0, 0], ['c', 0, 1], ['s', 0, 0], ['c', 0, 0], ['s', 0, 1], ['c', 0, 2]]})
+    idx = 3
     for name in HIST_SUBJECTS:
         for _ in range(n):
             cases.append(gen_history(rng, name, idx)); idx += 1
@@ -1231,30 +1504,105 @@ def history_tie(ctx):
         ctx.count('history-subject:' + case['subject'])
         ctx.count('history-calls:%d' % len(observed))
         ctx.count('history-param-changes:%d' % (sum(1 for e in case['events'] if e[0] == 's') - 1))
-        ctx.case(None, nontrivial_key=('history', case['subject'], repr(case['events'])) if (0 in observed and 1 in observed) else None)
+        flat = [b for o in observed for b in (o if isinstance(o, tuple) else (o,))]
+        ctx.case(None, nontrivial_key=('history', case['subject'], repr(case['events'])) if (0 in flat and 1 in flat) else None)
         lines.append(history_line(family, case['events']))
         kept.append((case, observed, family))
     answers = ctx.model(lines)
     for (case, observed, family), ans, line in zip(kept, answers, lines):
         toks = ans.split(' ')
-        if toks[:2] != ['ok', 'safe=1'] or len(toks) != 3 + len(case['events']) or toks[2] != 'cells=0':
+        if toks[:2] != ['ok', 'safe=1'] or len(toks) != 3 + len(case['events']) or toks[2] not in ('cells=0', 'cells=0,1'):
             raise MachineryError('unexpected answer to %r: %r' % (line, ans))
+        ncell = len(toks[2][6:].split(','))
         predicted, fresh_ok = [], True
         for ev, t in zip(case['events'], toks[3:]):
             if ev[0] == 's':
                 if t != 's':
                     raise MachineryError('history token mismatch %r' % ans)
                 continue
-            if len(t) != 4 or t[0] != 'h' or t[2] != 'f':
+            if len(t) != 3 + ncell or t[0] != 'h' or t[1 + ncell] != 'f':
                 raise MachineryError('history token %r' % t)
-            predicted.append(0 if t[1] == '1' else 1)          # hit => no recomputation
-            fresh_ok = fresh_ok and t[3] == '1'
+            miss = tuple(0 if b == '1' else 1 for b in t[1:1 + ncell])          # hit => no recomputation
+            predicted.append(miss[0] if ncell == 1 else miss)
+            fresh_ok = fresh_ok and t[2 + ncell] == '1'
         ctx.traces_validated += len(observed)
         for o in observed:
-            ctx.count('history-observed:' + ('miss' if o else 'hit'))
+            if isinstance(o, tuple):
+                ctx.count('history-observed:%s matrices %s, work buffer %s' % (case['subject'], 'recomputed' if o[0] else 'kept', 'reallocated' if o[1] else 'kept'))
+            else:
+                ctx.count('history-observed:' + ('miss' if o else 'hit'))
         if predicted != observed or not fresh_ok:
             ctx.disagree('C06 history', {'subject': case['subject'], 'family': family, 'events': case['events'],
                                          'model_miss': predicted, 'impl_miss': observed, 'model_fresh_equal': fresh_ok})
+
+
+# ---------------------------------------------------------------------------------------------
+# the model of the defect class "keep only what this input excites" (OpIR.Old.keepExcited) against the wide-magnitude rule
+
+def keep_excited_selftest(ctx):
+    """`OpIR.Old.keepExcited θ` (driver op `C06 keep-excited`) is homogeneous and not additive (theorems
+    keepExcited_homogeneous / keepExcited_not_additive).  The harness's wide-magnitude linearity rule is run on the
+    MODEL's outputs: on pairs whose faint term lies below the threshold it must report the map, on f(a x) = a f(x) it
+    must not; and a direct transcription (exact fractions) must agree with the model value by value."""
+    import fractions
+    F = fractions.Fraction
+    rng = np.random.default_rng([ctx.seed, 6, 11])
+    n_cases = ctx.scale(12, 60)
+    theta = F(1, 10 ** 10)
+
+    def keep(th, x):
+        ss = sum(c * c for c in x)
+        return [c if th * ss < c * c else F(0) for c in x]
+
+    def txt(x):
+        return '[' + ','.join(str(c) for c in x) + ']'
+    lines, meta = [], []
+    for k in range(n_cases):
+        n = int(rng.integers(2, 7))
+        x = [F(int(v), 16) for v in rng.integers(-32, 33, size=n)]
+        if all(c == 0 for c in x):
+            x[0] = F(1)
+        rexp = RATIO_EXPS_FAINT[k % len(RATIO_EXPS_FAINT)]
+        y = [F(0)] * n
+        j = int(rng.integers(n))
+        x[j] = F(0)                                         # the faint term lives where the bright one has nothing
+        x[(j + 1) % n] = F(int(rng.integers(16, 33)), 16) * (1 if rng.random() < 0.5 else -1)      # a bright pixel, |x| >= 1
+        a = F(int(rng.integers(1, 9)), 4) * F(2) ** int(A_EXPS[k % len(A_EXPS)])
+        y[j] = F(int(rng.integers(4, 17)), 16) * a * F(2) ** rexp        # amplitude ratio of the two terms a*x : y = 2^rexp
+        z = [a * u + v for u, v in zip(x, y)]
+        for vec in (x, y, z, [a * u for u in x]):
+            lines.append('C06 keep-excited %s %s' % (theta, txt(vec)))
+        meta.append((x, y, z, a))
+    answers = ctx.model(lines)
+    flagged = homogeneous_ok = 0
+    for k, (x, y, z, a) in enumerate(meta):
+        outs = []
+        for vec, ans in zip((x, y, z, [a * u for u in x]), answers[4 * k:4 * k + 4]):
+            toks = ans.split(' ')
+            if len(toks) != 3 or toks[0] != 'ok':
+                raise MachineryError('unexpected keep-excited answer %r' % ans)
+            got = [F(t) for t in toks[1][1:-1].split(',')] if toks[1] != '[]' else []
+            ctx.traces_validated += 1
+            if got != keep(theta, vec) or F(toks[2][6:]) != sum(c * c for c in vec):
+                ctx.disagree('C06 keep-excited', {'theta': str(theta), 'x': txt(vec), 'model': ans, 'transcription': txt(keep(theta, vec))})
+            outs.append(np.array([float(c) for c in got]))
+        fx, fy, fz, fax = outs
+        af = float(a)
+        # the rule of run_wide on the model's outputs
+        nu, nv = abs(af) * maxabs(fx), maxabs(fy)
+        nin = abs(af) * maxabs(np.array([float(c) for c in x])) + maxabs(np.array([float(c) for c in y]))
+        r = maxabs(fz - af * fx - fy)
+        if r > wide_tolerance(nu, nv, nin, 1.0):
+            flagged += 1
+        if maxabs(fax - af * fx) <= TOL_LIN * max(1.0, maxabs(fax)):
+            homogeneous_ok += 1
+        ctx.case(None, nontrivial_key=('keep-excited', k))
+    ctx.count('keep-excited-selftest:flagged-by-wide-rule', )
+    ctx.extra['keep_excited_selftest'] = {'cases': len(meta), 'flagged_by_wide_rule': flagged, 'homogeneous': homogeneous_ok}
+    if flagged != len(meta) or homogeneous_ok != len(meta):
+        ctx.disagree('C06 keep-excited', {'note': 'the wide-magnitude rule must flag every one of these pairs (faint term below the threshold of '
+                                                  'OpIR.Old.keepExcited) and accept f(a x) = a f(x)', 'cases': len(meta),
+                                          'flagged': flagged, 'homogeneous': homogeneous_ok})
 
 
 # ---------------------------------------------------------------------------------------------
@@ -1346,10 +1694,15 @@ def run(ctx):
                         'sub-propagators probed as dense matrices are linear (checked by their own registry entries)']
     load_internal_declarations(ctx)
     history_tie(ctx)
+    keep_excited_selftest(ctx)
     internal_seen = {}
     registries, cases = plan(ctx)
     entries = registries[0]
     by_name = {(k, e.name): e for k, ents in enumerate(registries) for e in ents}
+    import time
+    t_flip = time.time()
+    run_flips(ctx, registries, by_name)
+    ctx.extra['flip_seconds'] = round(time.time() - t_flip, 1)
     ctx.extra['registries'] = len(registries)
     ctx.extra['registry_entries'] = len(entries)
     ctx.extra['grid_sizes'] = sorted(set(int(e.input_grid.size) for ents in registries for e in ents))
@@ -1440,6 +1793,13 @@ def run(ctx):
             ctx.count('effects-program:none')
         if obs['multi']:
             continue
+        if e.family == 'filter':
+            # the padded FFT matrices of a FourierFilter make a 1.7 MB request: their own budget (entries x directions first)
+            left = pc_budget.setdefault('filter-term', ctx.scale(4, 16))
+            if left <= 0 or case['kind'] != 'scalar' or (ctx.quick() and case['wavelength'] != e.wavelengths[0]):
+                ctx.count('denote-filter-term-skipped-budget')
+                continue
+            pc_budget['filter-term'] = left - 1
         try:
             term = ir_term(e, el, case['direction'], case['kind'], case['wavelength'])
         except Exception as ex:     # noqa
@@ -1580,6 +1940,11 @@ def replay(ctx, case):
             print('  fails:', key, '-', what)
         return not bad
     e = find_entry(case)
+    if case.get('mode') == 'flip':
+        bad, _ = run_flip(e, case)
+        for key, what in bad:
+            print('  fails:', key, '-', what)
+        return not bad
     el = e.factory()
     warm_up(e, el, case)
     if case.get('mode') == 'wide':
